@@ -10,6 +10,7 @@ import (
 	"encoding/csv"
 	"encoding/json"
 	"fmt"
+	"io"
 	"math"
 	"os"
 	"os/exec"
@@ -22,7 +23,6 @@ import (
 	"time"
 
 	"golang.org/x/perf/benchproc"
-	"golang.org/x/perf/cmd/benchstat/internal/benchtab"
 	sim "verif.local/sim"
 )
 
@@ -58,7 +58,6 @@ func keyCanon(k benchproc.Key) (s string) {
 
 func init() {
 	sim.RegisterCanon(keyCanon)
-	sim.RegisterCanon(func(k benchtab.TableKey) string { return keyCanon(k.Row) + "|" + keyCanon(k.Col) })
 }
 
 // c15RunSim executes benchstat once as task "main" under the scheduler.
@@ -79,7 +78,11 @@ func c15RunSim(t *testing.T, r *sim.Run, args []string, gmp int) c15Out {
 					out.Panic = fmt.Sprint(p)
 				}
 			}()
-			if err := benchstat(&stdout, &stderr, args); err != nil {
+			var w io.Writer = &stdout
+			if c15FailAfter >= 0 {
+				w = &c15FailingWriter{w: &stdout, left: c15FailAfter}
+			}
+			if err := benchstat(w, &stderr, args); err != nil {
 				out.Err = err.Error()
 			}
 		})
@@ -91,6 +94,22 @@ func c15RunSim(t *testing.T, r *sim.Run, args []string, gmp int) c15Out {
 }
 
 var c15ClockSkew time.Duration // simulated time that has passed when the next execution starts
+var c15FailAfter = -1          // >= 0: stdout of the next execution accepts this many bytes, then fails
+
+type c15FailingWriter struct {
+	w    io.Writer
+	left int
+}
+
+func (f *c15FailingWriter) Write(p []byte) (int, error) {
+	if len(p) <= f.left {
+		f.left -= len(p)
+		return f.w.Write(p)
+	}
+	n, _ := f.w.Write(p[:f.left])
+	f.left = 0
+	return n, fmt.Errorf("verifsim: output closed")
+}
 
 var (
 	c15Dir      string
@@ -492,6 +511,18 @@ func c15Episode(t *testing.T, r *sim.Run, tier string) {
 		if envk != "" {
 			envOld, envHad = os.LookupEnv(envk)
 			os.Setenv(envk, map[string]string{"COLUMNS": "37", "LANG": "tr_TR.UTF-8", "NO_COLOR": "1", "TERM": "dumb", "HOME": "/nonexistent", "GODEBUG": "randautoseed=0"}[envk])
+		}
+		if T.Intn(10, "failed-run-first") == 0 {
+			// an earlier run in this process whose output could not be written (closed pipe, full disk): whatever it
+			// left behind must not show in later output
+			c15FailAfter = T.Intn(len(refs[ai].Stdout)+1, "fail-after")
+			bad := c15RunSim(t, r, argsets[ai], gmp)
+			c15FailAfter = -1
+			r.Logf("exec %d: preceded by a run whose stdout failed after %d bytes (err %q)", e, len(bad.Stdout), bad.Err)
+			r.Hit("execution preceded by a run with a failing output writer")
+			if r.Failed() {
+				return
+			}
 		}
 		got := c15RunSim(t, r, argsets[ai], gmp)
 		c15ClockSkew = 0
